@@ -508,7 +508,7 @@ func (fe flagEntry) flagArgs(v string) string {
 }
 
 var flagEntries = []flagEntry{
-	{"flag_rate", "flag.rate", "c19.rate", func(r *kit.Rng) string { return gen.Rate(r).Text }, gen.RateMalformed, false},
+	{"flag_rate", "flag.rate", "c19.rate", func(r *kit.Rng) string { return gen.Rate(r).Text }, append(append([]string{}, gen.RateMalformed...), gen.RateOdd...), false},
 	{"flag_header", "flag.headers", "c19.headers", func(r *kit.Rng) string { return gen.Header(r).Text }, gen.HeaderMalformed, true},
 	{"flag_max_body", "flag.maxbody", "c19.maxbody", func(r *kit.Rng) string { return gen.Size(r).Text }, gen.SizeMalformed, false},
 	{"flag_connect_to", "flag.connectto", "c19.connectto", func(r *kit.Rng) string { return gen.ConnectTo(r).Text }, gen.ConnectToMalformed, true},
